@@ -238,7 +238,7 @@ fn drive_sound<T: Transport>(t: T, p: &EvqParams, rng: &mut SmallRng) -> String 
 pub fn run(p: &EvqParams, sc: &str) -> (Vec<Vec<String>>, Value) {
     // every third scenario runs on a platform that maps buffers in place: what the device writes
     // into a re-posted buffer is visible at once (an event must have been copied out before)
-    INPLACE_MODE.with(|m| m.set(p.seed % 3 == 0));
+    INPLACE_MODE.with(|m| m.set(p.seed % 3 == 0 && !adv_active()));
     reset_world();
     INPLACE_MODE.with(|m| m.set(false));
     let mut rng = SmallRng::seed_from_u64(p.seed);
